@@ -71,13 +71,12 @@ def specHdr : Dec MetaHdr := do
       let isUncompressed ← specFlagIf (!isLast)
       pure (.data isLast mlen isUncompressed)
 
-/-- the compressed meta-block after its MLEN / ISUNCOMPRESSED: header, commands, and the final padding of a last one. -/
-def specCompressed (dict : ByteArray) (ws : Nat) (isLast : Bool) (mlen : Nat) (ds : Dists) : Dec Dists := do
+/-- the compressed meta-block after its MLEN / ISUNCOMPRESSED: header and commands; the last distances. -/
+def specCompressed (dict : ByteArray) (ws : Nat) (mlen : Nat) (ds : Dists) : Dec Dists := do
   let (litB, cmdB, distB, h) ← readCompressedHeader
   let c ← readCommands dict ws h (mlen + (← remainingBits) + 1)
     { mlen, litB, cmdB, distB, d1 := ds.d1, d2 := ds.d2, d3 := ds.d3, d4 := ds.d4 }
-  if isLast then do alignToByte; pure { d1 := c.d1, d2 := c.d2, d3 := c.d3, d4 := c.d4 }
-  else pure { d1 := c.d1, d2 := c.d2, d3 := c.d3, d4 := c.d4 }
+  pure { d1 := c.d1, d2 := c.d2, d3 := c.d3, d4 := c.d4 }
 
 /-- what follows the header. -/
 def specBody (dict : ByteArray) (ws : Nat) (k : Dists → Dec Unit) (ds : Dists) : MetaHdr → Dec Unit
@@ -91,8 +90,8 @@ def specBody (dict : ByteArray) (ws : Nat) (k : Dists → Dec Unit) (ds : Dists)
     copyBytes mlen
     k ds
   | .data isLast mlen false => do
-    let ds' ← specCompressed dict ws isLast mlen ds
-    if isLast then pure () else k ds'
+    let ds' ← specCompressed dict ws mlen ds
+    if isLast then alignToByte else k ds'
 
 theorem readMetaBlocks_succ (dict : ByteArray) (ws fuel : Nat) (ds : Dists) :
     readMetaBlocks dict ws (fuel+1) ds = specHdr >>= specBody dict ws (readMetaBlocks dict ws fuel) ds := by
@@ -111,9 +110,7 @@ theorem readMetaBlocks_succ (dict : ByteArray) (ws fuel : Nat) (ds : Dists) :
       congr 1; funext unc
       cases unc <;> simp only [Bool.false_eq_true, if_false, if_true]
   · simp only [specCompressed, specBody, dec_bind_assoc, dec_pure_bind, dec_ite_bind, dec_corrupt_bind,
-      dec_map_eq, Bool.false_eq_true, if_false, if_true]
-    congr 1; funext le
-    cases le <;> simp only [Bool.false_eq_true, if_false, if_true, dec_bind_pure_unit, Bool.not_true]
+      dec_map_eq, Bool.false_eq_true, if_false, if_true, Bool.not_true]
 
 
 /-! ### MLEN / MSKIPLEN: pieces, least significant first, the last one not zero -/
